@@ -1,9 +1,11 @@
 import RV.Drive.Decisions
+import RV.Drive.Detectors
+import RV.Drive.Mmae
 namespace RV.Drive
 open RV
 
 def handlers : List (String → Option (P String)) :=
-  [RV.Drive.Decisions.handle]
+  [RV.Drive.Decisions.handle, RV.Drive.Detectors.handle, RV.Drive.Mmae.handle]
 
 def step (line : String) : String :=
   match tokens line with
